@@ -384,12 +384,33 @@ func execOps(c core.Case) []string {
 				out = append(out, "bad-op")
 				continue
 			}
-			vals := make([]*types.Validator, len(v))
-			for i, x := range v {
-				vals[i] = &types.Validator{Address: x.addr, PubKey: pool[x.key].PubKey(), VotingPower: x.power}
+			if m["via"] == "proto" {
+				// the set as a node receives it: ToProto -> wire (optionally with a falsified
+				// total_voting_power) -> ValidatorSetFromProto
+				var tvp *int64
+				if t, has := m["tvp"]; has {
+					x, err := strconv.ParseInt(t, 10, 64)
+					if err != nil {
+						out = append(out, "bad-op")
+						continue
+					}
+					tvp = &x
+				}
+				dec, err := protoSet(v, tvp)
+				if err != nil {
+					vs = nil
+					out = append(out, "proto-error:"+strings.ReplaceAll(err.Error(), " ", "_"))
+					continue
+				}
+				vs = dec
+			} else {
+				vals := make([]*types.Validator, len(v))
+				for i, x := range v {
+					vals[i] = &types.Validator{Address: x.addr, PubKey: pool[x.key].PubKey(), VotingPower: x.power}
+				}
+				// built directly: the verification functions only read Validators and TotalVotingPower()
+				vs = &types.ValidatorSet{Validators: vals}
 			}
-			// built directly: the verification functions only read Validators and TotalVotingPower()
-			vs = &types.ValidatorSet{Validators: vals}
 			out = append(out, guarded(func() string { return fmt.Sprintf("total=%d", vs.TotalVotingPower()) }))
 		case "commit":
 			ci, ok := parseCommit(m)
@@ -397,12 +418,16 @@ func execOps(c core.Case) []string {
 				out = append(out, "bad-op")
 				continue
 			}
-			sigs := make([]types.CommitSig, len(ci.slots))
-			for i, s := range ci.slots {
-				sigs[i] = types.CommitSig{BlockIDFlag: types.BlockIDFlag(s.flag), ValidatorAddress: s.addr,
-					Timestamp: tsTime(s.ts), Signature: sigBytes(s.d)}
+			cm = realCommit(ci.h, ci.r, ci.b, ci.slots)
+			if m["via"] == "proto" {
+				dec, err := protoCommit(cm)
+				if err != nil {
+					cm = nil
+					out = append(out, "proto-error:"+strings.ReplaceAll(err.Error(), " ", "_"))
+					continue
+				}
+				cm = dec
 			}
-			cm = &types.Commit{Height: ci.h, Round: ci.r, BlockID: ci.b.real(), Signatures: sigs}
 			out = append(out, "ok")
 		case "full", "light":
 			b, ok := parseBid(m["bid"])
@@ -490,6 +515,11 @@ func oracle(c core.Case, out []string) []core.Finding {
 			if v, ok := parseVals(m["v"]); ok {
 				vs, haveVals = v, true
 				lastFull = map[string]string{}
+				if t := bigTotal(v); inQuantifier(v) && strings.HasPrefix(out[i], "total=") &&
+					t.Cmp(big.NewInt(types.MaxTotalVotingPower)) <= 0 && out[i] != "total="+t.String() {
+					add("ValidatorSet.TotalVotingPower.differs-from-sum-of-powers",
+						fmt.Sprintf("the set reports %s but its validators' powers add up to %v (%s)", out[i], t, strings.Join(f[2:], " ")))
+				}
 			}
 		case "commit":
 			if ci, ok := parseCommit(m); ok {
@@ -564,16 +594,34 @@ func oracle(c core.Case, out []string) []core.Finding {
 							fmt.Sprintf("VerifyCommit rejected (%s) although qualifying power %v of %v exceeds two thirds", out[i], counted, total))
 					}
 				}
-				lastFull[strings.Join(f[1:], " ")] = fmt.Sprintf("%s|%v", out[i], allValid)
-			} else if prev, ok := lastFull[strings.Join(f[1:], " ")]; ok && nonneg {
-				p := strings.Split(prev, "|")
-				if p[1] == "true" && allValid && (p[0] == "ok") != (out[i] == "ok") {
-					add("full-light-disagree",
-						fmt.Sprintf("all non-absent signatures valid but VerifyCommit=%s and VerifyCommitLight=%s", p[0], out[i]))
+			}
+			// threshold reported on rejection
+			if mm := reNotEnough.FindStringSubmatch(out[i]); mm != nil && nonneg && total.Cmp(big.NewInt(types.MaxTotalVotingPower)) <= 0 {
+				want := new(big.Int).Div(new(big.Int).Mul(total, big.NewInt(2)), big.NewInt(3))
+				if mm[2] != want.String() {
+					add(name+".threshold-differs-from-two-thirds-of-total",
+						fmt.Sprintf("%s reports needed=%s but two thirds of the total %v is %v", name, mm[2], total, want))
 				}
 			}
+			// agreement of the two variants on the same arguments, whichever ran first
+			key := strings.Join(f[1:], " ")
+			other := "light " + key
+			if f[0] == "light" {
+				other = "full " + key
+			}
+			if prev, ok := lastFull[other]; ok && nonneg && allValid {
+				fo, lo := prev, out[i]
+				if f[0] == "full" {
+					fo, lo = out[i], prev
+				}
+				if (fo == "ok") != (lo == "ok") {
+					add("full-light-disagree",
+						fmt.Sprintf("all non-absent signatures valid but VerifyCommit=%s and VerifyCommitLight=%s", fo, lo))
+				}
+			}
+			lastFull[f[0]+" "+key] = out[i]
 		case "trusting":
-			if !haveVals || cm == nil || out[i] != "ok" || !inQuantifier(vs) {
+			if !haveVals || cm == nil || !inQuantifier(vs) {
 				continue
 			}
 			num, e1 := strconv.ParseUint(m["num"], 10, 64)
@@ -606,6 +654,23 @@ func oracle(c core.Case, out []string) []core.Finding {
 			total := bigTotal(vs)
 			lhs := new(big.Int).Mul(counted, new(big.Int).SetUint64(den))
 			rhs := new(big.Int).Mul(total, new(big.Int).SetUint64(num))
+			if mm := reNotEnough.FindStringSubmatch(out[i]); mm != nil && total.Cmp(big.NewInt(types.MaxTotalVotingPower)) <= 0 {
+				// a fall-through means every known for-block signer was verified once
+				if mm[1] != counted.String() {
+					add("VerifyCommitLightTrusting.tally-differs-from-distinct-member-power",
+						fmt.Sprintf("VerifyCommitLightTrusting reports tallied power %s but the distinct qualifying members carry %v (a repeated, unknown or invalid signer was counted, or a valid one dropped)", mm[1], counted))
+				}
+				if den != 0 && num <= math.MaxInt64 && den <= math.MaxInt64 && rhs.IsInt64() {
+					want := new(big.Int).Div(rhs, new(big.Int).SetUint64(den))
+					if mm[2] != want.String() {
+						add("VerifyCommitLightTrusting.threshold-differs-from-fraction-of-total",
+							fmt.Sprintf("VerifyCommitLightTrusting reports needed=%s but %d/%d of the total %v is %v", mm[2], num, den, total, want))
+					}
+				}
+			}
+			if out[i] != "ok" {
+				continue
+			}
 			if den == 0 || lhs.Cmp(rhs) <= 0 {
 				if num > math.MaxInt64 || den > math.MaxInt64 {
 					add("VerifyCommitLightTrusting.fraction-part-exceeds-int64",
@@ -984,6 +1049,11 @@ func genCase(r *rand.Rand, maxN int) core.Case {
 	if nm == 0 {
 		note(mutHist, "none")
 	}
+	for i := range slots { // every descriptor must be signable
+		if (slots[i].d.tag == "V" || slots[i].d.tag == "F") && !slots[i].d.b.valid() {
+			slots[i].d.b = bidPool[0]
+		}
+	}
 
 	vopts, copts := "", ""
 	// the set / the commit as decoded from their protobuf forms (only when they decode on this tree)
@@ -1235,7 +1305,12 @@ func protoCommit(cm *types.Commit) (out *types.Commit, err error) {
 	return types.CommitFromProto(pb)
 }
 
-func protoCommitOK(h int64, rd int32, b bid, slots []slot) bool {
+func protoCommitOK(h int64, rd int32, b bid, slots []slot) (ok bool) {
+	defer func() {
+		if recover() != nil {
+			ok = false
+		}
+	}()
 	_, err := protoCommit(realCommit(h, rd, b, slots))
 	return err == nil
 }
@@ -1371,12 +1446,15 @@ func main() {
 		ID:     "C07",
 		Driver: "c07",
 		Gen: func(r *rand.Rand, tier string, emit func(core.Case)) {
-			n, maxN := 5000, 12
+			n, maxN := 4500, 12
 			if tier == "thorough" {
-				n, maxN = 40000, 150
+				n, maxN = 36000, 150
 			}
 			for i := 0; i < n; i++ {
 				emit(genCase(r, maxN))
+				if i%3 == 0 {
+					emit(genLargeTrusted(r, maxN))
+				}
 				if i%50 == 0 {
 					emit(genMalformed(r))
 				}
@@ -1392,7 +1470,7 @@ func main() {
 			}
 			return false
 		},
-		Rule: "random validator sets (0..12 quick / 0..150 thorough validators, real ed25519 keys; equal, skewed, thirds-boundary, exactly-MaxTotalVotingPower, over-max, zero and negative powers; repo ordering or shuffled) with a commit built from real types.Commit/CommitSig whose slots are genuine signatures, nil votes or absent, then 0..3 mutations (flag, junk/empty/short/bit-flipped signature, signed over another chain/height/round/block/nil/timestamp/type/key, foreign or unknown address, duplicated slot, swap, length±1); calls: VerifyCommit and VerifyCommitLight with matching or mismatching chain/block id/height, VerifyCommitLightTrusting with fractions 1/3,2/3,1/2,1/1,0/1,x/0,3/2, exactly-at and just-below the boundary, numerator at the safeMul edge, parts >= 2^63, and again against an overlapping shuffled trusted set. Non-trivial = at least one verification call accepted; distinct by hash of the op list",
+		Rule: "random validator sets (0..12 quick / 0..150 thorough validators, real ed25519 keys; equal, skewed, thirds-boundary, exactly-MaxTotalVotingPower, over-max, zero and negative powers; repo ordering or shuffled) with a commit built from real types.Commit/CommitSig whose slots are genuine signatures, nil votes or absent, then 0..3 mutations (flag, junk/empty/short/bit-flipped signature, signed over another chain/height/round/block/nil/timestamp/type/key, foreign or unknown address, duplicated slot, swap, length±1); the set and/or the commit optionally passed through ToProto -> wire bytes (with a falsified total_voting_power) -> FromProto; calls on ONE ValidatorSet object per `vals` line: VerifyCommit and VerifyCommitLight with matching or mismatching chain/block id/height, in shuffled order with repeats, then the same signature list relabelled to another height/round/block and verified again (and back, and with one slot changed); a stream of trusted sets LARGER than the commit whose slots are signed by members at low/middle/high positions with repeated signers, at the exact distinct-member level; VerifyCommitLightTrusting with fractions 1/3,2/3,1/2,1/1,0/1,x/0,3/2, exactly-at and just-below the boundary, numerator at the safeMul edge, parts >= 2^63, and again against an overlapping shuffled trusted set. Non-trivial = at least one verification call accepted; distinct by hash of the op list",
 		Assumptions: []string{
 			"ed25519 is modelled as a predicate sigOK(key, signBytes, sig); the stream describes each signature by what it was really made over and the driver's sigOK compares that with the sign-bytes record the model computes (so a canonical encoding that dropped a field would show as a disagreement and an oracle failure)",
 			"protobuf encoding of the canonical vote is not modelled: the sign-bytes record (type, height, round, canonical block id, timestamp, chain id) is assumed injectively encoded",
